@@ -139,6 +139,7 @@ async fn sequence(ty: &str, len: usize, seed: u64) -> (Vec<(String, String)>, Ve
     let mut model: BTreeSet<String> = BTreeSet::new();
     let mut removed: Vec<String> = Vec::new();
     let mut conns: Vec<ConnRec> = Vec::new();
+    let mut stalled: Vec<Raw> = Vec::new();
     let mut seq = 0u32;
     macro_rules! count {
         ($k:expr) => {
@@ -223,6 +224,17 @@ async fn sequence(ty: &str, len: usize, seed: u64) -> (Vec<(String, String)>, Ve
                             break 'ops;
                         }
                     }
+                }
+            }
+            8 if r.chance(1, 2) && !model.is_empty() => {
+                // a client that connects and then says nothing must not stop the listener
+                // from accepting others (checked by the following connect-and-exchange ops)
+                let ep = model.iter().nth(r.below(model.len())).cloned().unwrap();
+                log.push(format!("stalled-client({ep})"));
+                count!("op/stalled-client");
+                if let Ok(Ok(mut raw)) = tokio::time::timeout(WAIT, Raw::connect(&ep)).await {
+                    let _ = raw.write_all(&rc::greeting()[..r.below(40)]).await;
+                    stalled.push(raw);
                 }
             }
             7 => {
@@ -350,6 +362,7 @@ impl Prop for C18 {
             ("op/unbind-bound", 20),
             ("op/unbind-unknown", 20),
             ("op/connect-and-exchange", 20),
+            ("op/stalled-client", 10),
             ("unbind_with_other_binds_alive", 10),
             ("endpoints_probed", 100),
             ("exchanges", 200),
